@@ -13,6 +13,12 @@
 #include <unordered_set>
 
 namespace c16 {
+/// read-only part of a value or view (always through the const overload)
+template<int I, typename X>
+auto rpart(const X & x)
+{
+  return x.template part<I>();
+}
 using namespace mcb;
 
 template<typename S>
@@ -244,9 +250,18 @@ struct Harness
 
   void run(int depth)
   {
-    static_assert(!CMG::is_mutable && MG::is_mutable, "const Map must not be mutable");
-    static_assert(!requires(CMG & x, const G & g) { x = g; }, "const Map must not be assignable");
-    static_assert(!requires(CMG & x, const G & g) { x *= g; }, "const Map must not support *=");
+    // type-level part of "const views never write": a const view must not offer any mutating operation (judged at run
+    // time so that a change of the library's traits is reported as a violation of this property, not as a build error)
+    mc::explore("C16/types/" + tn, 6, [&](mc::Case & c) {
+      static const char * what[6] = {"Map<G> is mutable", "Map<const G> is not mutable", "Map<const G> is not assignable from a value",
+        "Map<const G> does not offer *=", "Map<const G> does not offer += tangent", "Map<const G>::coeffs() is read-only"};
+      c.desc = [&] { return std::string(what[c.idx]); };
+      constexpr bool r[6] = {MG::is_mutable, !CMG::is_mutable, !std::is_assignable_v<CMG &, const G &>,
+        !requires(CMG & x, const G & g) { x *= g; }, !requires(CMG & x, const typename G::Tangent & a) { x += a; },
+        std::is_const_v<std::remove_reference_t<decltype(std::declval<CMG &>().coeffs())>> || !std::is_lvalue_reference_v<decltype(std::declval<CMG &>().coeffs())>
+          || std::is_const_v<std::remove_pointer_t<decltype(std::declval<CMG &>().data())>>};
+      c.require(what[c.idx], r[c.idx]);
+    });
     const uint64_t nops = ops.size();
     for (int shift : {0, 1}) {
       std::vector<Key> frontier;
